@@ -50,6 +50,7 @@ type SpecEnv struct {
 	At    token.Pos // position used to disambiguate shadowed locals
 	facts []*Term   // facts collected while inside a quantifier
 	inQ   int
+	GoalOnly bool // the expression is only ever used as a proof goal (never assumed)
 }
 
 type specFail string
@@ -378,6 +379,24 @@ func (se *SpecEnv) evalBin(x *SExpr) TV {
 		a := se.evalBool(x.Args[0])
 		if a.IsFalse() {
 			return TV{TTrue, bt}
+		}
+		if se.GoalOnly {
+			// a goal may mention locals that exist only on the paths where the antecedent holds: where they are
+			// missing the consequent counts as false, so the antecedent itself must be refutable on that path
+			var b *Term
+			func() {
+				defer func() {
+					if r := recover(); r != nil {
+						if sf, ok := r.(specFail); ok && strings.Contains(string(sf), "unknown identifier") {
+							b = TFalse
+							return
+						}
+						panic(r)
+					}
+				}()
+				b = se.evalBool(x.Args[1])
+			}()
+			return TV{Implies(a, b), bt}
 		}
 		return TV{Implies(a, se.evalBool(x.Args[1])), bt}
 	case "<==>":
